@@ -393,6 +393,17 @@ def call_function_args(c, chk, ex):
             want = 'funcopt->values[%s]->string' % sym.render(i) if i != sym.C0 else '*funcopt->values->string'
             if sym.render(v) != want:
                 okf = False
+        # "a non-zero result makes the parse fail": whatever the callback answers that is not zero comes out of here as not zero
+        rv = p.retval
+        zero_shown = any(cn[0] == 'icmp' and cn[1] in ('eq', 'ne') and e.res in (cn[2], cn[3]) and sym.C0 in (cn[2], cn[3]) and ((cn[1] == 'eq') == t) for cn, t, _ in p.assume)
+        if rv is not None and rv != e.res and sym.is_const(rv) and rv[1] == 0 and not zero_shown:
+            chk.fail('R14.1', 'func-verdict-lost', c.where(p.last_ins) if p.last_ins is not None else c.where(fn),
+                     'call_function() returns 0 on a path where the function callback was not shown to have returned 0 (%s): a callback that reports failure with a '
+                     'positive code (as cfg_include() does) no longer stops the parse' % fp_cond(p))
+            return
+        if rv is not None and rv != e.res and not sym.is_const(rv):
+            chk.fail('R14.1', 'func-verdict-lost', c.where(fn), 'call_function() returns %s instead of the verdict of the function callback' % sym.render(rv))
+            return
         if okc and okv and okf:
             good += 1
         else:
